@@ -20,10 +20,18 @@ fn main() {
             let cases = util::read_lines(&args[2]);
             let mut rep = util::Report::default();
             let mut ctx = net::Ctx::default();
+            let mut nctx = net::NetCtx::default();
             for c in cases.iter() {
                 let k = c["k"].as_str().unwrap_or("");
                 match k {
-                    "universe" => ctx.set_universe(c),
+                    "universe" => {
+                        if c.get("urls").is_some() {
+                            ctx.set_universe(c)
+                        } else {
+                            nctx.set_universe(c)
+                        }
+                    }
+                    "net" => net::replay_net(&nctx, c, &mut rep),
                     "c02" => net::replay_c02(&ctx, c, &mut rep),
                     other => {
                         eprintln!("harness: unknown case kind {:?}", other);
